@@ -12,7 +12,7 @@ def run_tables(ck, rule, gen, scope='present', **kw):
 
 
 TIME_SWEEP = ['dt64_s', 'epoch_list', 'epoch_array', 'series', 'series_tz', 'dtindex', 'dtindex_tz', 'dtindex_s', 'series_us', 'pydatetime']
-DATA_SWEEP = ['list_nan', 'tuple_nan', 'ndarray', 'series']
+DATA_SWEEP = ['list_nan', 'tuple_nan', 'ndarray', 'series', 'ndarray_f4', 'ndarray_int']
 
 
 def run_carrier_sweep(ck, rule, gen, time=True, data=True, n_max=3, per_class=4, **kw):
@@ -37,6 +37,16 @@ def run_carrier_sweep(ck, rule, gen, time=True, data=True, n_max=3, per_class=4,
                 seen[cls] = seen.get(cls, 0) + 1
                 case.label = f'{case.label} [{param}={value}]'
                 case.meta = dict(case.meta, **{'class': f'{case.meta.get("class", "")}/{value}'})
-                table_rule(ck, rule, case, spec, scope='present')
+                out = table_rule(ck, rule, case, spec, scope='present')
+                if value in ('ndarray_f4', 'ndarray_int') and out is not None:
+                    # the specification is about the values: a float32 / integer array must be widened before it is added, differenced or
+                    # compared with the limits, otherwise the flags follow the rounding / wrap-around of the carrier's type
+                    kind = 'narrow-float-arith' if value == 'ndarray_f4' else 'int-arith'
+                    evs = [e for e in getattr(out, 'events', []) if e['kind'] == kind]
+                    from ..repo import unparse
+                    from ..qc import fn_key
+                    ck.ob(rule + '.table', f'{case.label} width', not evs, key=f'{fn_key(case)}:{value}:arithmetic-in-the-carrier-dtype',
+                          what=f'{case.label}: the data is used in the dtype of the input array ('
+                               f'{unparse(evs[0]["node"], 70) if evs and evs[0].get("node") is not None else ""}) instead of being widened to float64 first')
         except ValueError:
             continue
